@@ -128,6 +128,11 @@ class Session:
         except EngineUnsound as e:
             r = Result(ERROR, "engine", "engine self-check failed: %s" % e)
         except Exception as e:
+            if type(e).__name__ == "ShapeObligation":
+                # broadcasting / axis / length obligation of the array model failed: real numpy raises (or mis-shapes) for generic sizes
+                r = Result(REFUTED, "symnp", "shape obligation failed: %s\n%s" % (e, traceback.format_exc()[-900:]), witness_id="shape:%s" % str(e)[:60])
+                r.time_s = time.time() - t
+                return r
             tb = traceback.extract_tb(e.__traceback__)
             last = tb[-1] if tb else None
             if last is not None and os.path.realpath(last.filename).startswith(os.path.realpath(REPO) + os.sep) \
